@@ -219,7 +219,7 @@ def run(ctx: common.Ctx):
                 if want is not None and got != want and not r["fail"]:
                     ctx.corr_broken("build-interface-model", {"signature": sig, "which": which, "implementation": got, "model": want})
     rj = [(d, s, decl) for d in impl.ALL_DTYPES for s, decl in (((3,), (3,)), ((2, 2), ("N", 2)), ((0,), (None,)))]
-    for job, r in zip(rj, tables.pmap(roundtrip_worker, rj, chunk=8)):
+    for job, r in tables.pairs(ctx, rj, tables.pmap(roundtrip_worker, rj, chunk=8)):
         if isinstance(r, tables.Crashed):
             ctx.violation("schema-roundtrip/interpreter-crash", f"{job}: worker died", {"job": repr(job)}); continue
         ctx.case(("roundtrip",) + job, True)
